@@ -10,6 +10,8 @@
 From Coq Require Import ZArith.
 From AV Require Import Base.Prelude Base.NatSet.
 From AV Require Model.Seq Model.L1D Proofs.SeqProofs Proofs.BookkeepingProofs.
+From AV Require Model.AvgNum Model.Avg Proofs.AvgProofs Proofs.BookkeepingAvg.
+From AV Require Model.Avg1D Model.Avg1DPend Proofs.BookkeepingAvg1D.
 Import BookkeepingProofs.
 
 Section C10_seq.
@@ -151,6 +153,183 @@ Section C10_l1d.
   Proof. exact (L1DBK.l1d_discard sub div ltb eqb inf is_nan is_inf round12 P). Qed.
 End C10_l1d.
 
+(* ---------------------------------------------------------------------- *)
+(* AverageLearner (Model/Avg.v; [tell] keeps the FIRST value of a seed), every
+   number structure [N], every configuration [c].  All histories are over the
+   model's ops: ask (committing or not), tell, tell_pending, remove_unfinished
+   ([BaseLearner.tell_many] is a loop of [tell]). *)
+Section C10_avg.
+  Variable N : AvgNum.NumOps.
+  Notation st := (Avg.st N).
+  Notation op := (Avg.op N).
+
+  (* ALL histories: data maps each told seed to the value of its first tell and
+     holds nothing else; every seed once *)
+  Theorem C10_avg_data_exact : forall (c : Avg.cfg N) (h : list op) seed,
+    Avg.lookup N seed (Avg.data (Avg.reach c h)) = Avg.first_told h seed /\
+    NoDup (Avg.keys (Avg.reach c h)) /\
+    (In seed (Avg.keys (Avg.reach c h)) <-> Avg.first_told h seed <> None).
+  Proof. exact (@BookkeepingAvg.avg_data_exact N). Qed.
+
+  (* post-condition of tell, every state: the told seed is not pending -- unless
+     it was known AND pending before, which only [tell_pending] of a known seed
+     produces (AverageLearner.tell_pending has no guard; the reading of DESIGN
+     section 7 C10) *)
+  Theorem C10_avg_told_not_pending : forall (s : st) k v,
+    (In k (Avg.keys s) -> ~ In k (Avg.pend s)) -> ~ In k (Avg.pend (Avg.tell s k v)).
+  Proof. exact (@BookkeepingAvg.avg_told_not_pending N). Qed.
+
+  (* along every history that marks only unknown seeds as pending (committing
+     asks of any size included: they hand out fresh seeds), data and the pending
+     set are disjoint *)
+  Theorem C10_avg_data_pending_disjoint : forall (c : Avg.cfg N) (h : list op),
+    BookkeepingAvg.polite c (Avg.init N) h = true ->
+    forall k, In k (Avg.pend (Avg.reach c h)) -> ~ In k (Avg.keys (Avg.reach c h)).
+  Proof. exact (@BookkeepingAvg.avg_data_pending_disjoint N). Qed.
+
+  (* a seed returned by a committing ask is pending and stays so along every
+     continuation that neither tells it nor discards (every state) *)
+  Theorem C10_avg_asked_is_pending : forall (c : Avg.cfg N) (s : st) n hint (h : list op) i,
+    In i (BookkeepingAvg.asked_points (snd (Avg.ask c s n true hint))) ->
+    forallb (BookkeepingAvg.keeps i) h = true ->
+    In i (Avg.pend (Avg.run c (fst (Avg.ask c s n true hint)) h)).
+  Proof. exact (@BookkeepingAvg.avg_asked_is_pending N). Qed.
+
+  (* npoints = len(data) = number of distinct told seeds, ALL histories *)
+  Theorem C10_avg_npoints : forall (c : Avg.cfg N) (h : list op),
+    Avg.npoints (Avg.reach c h) = length (BookkeepingAvg.told_set h) /\
+    length (Avg.data (Avg.reach c h)) = length (BookkeepingAvg.told_set h) /\
+    NoDup (BookkeepingAvg.told_set h) /\
+    (forall k, In k (BookkeepingAvg.told_set h) <-> exists v, In (Avg.Tell N k v) h).
+  Proof. exact (@BookkeepingAvg.avg_npoints N). Qed.
+
+  (* telling a known seed again changes nothing at all, whatever the value *)
+  Theorem C10_avg_retell_noop : forall (s : st) k v' w,
+    Avg.lookup N k (Avg.data s) = Some w -> Avg.tell s k v' = s.
+  Proof. exact (@BookkeepingAvg.avg_retell_noop N). Qed.
+
+  Theorem C10_avg_discard : forall (c : Avg.cfg N) (s : st),
+    Avg.pend (Avg.remove_unfinished s) = [] /\
+    Avg.data (Avg.remove_unfinished s) = Avg.data s /\
+    Avg.npoints (Avg.remove_unfinished s) = Avg.npoints s /\
+    Avg.loss c (Avg.remove_unfinished s) false = Avg.loss c (Avg.remove_unfinished s) true.
+  Proof. exact (@BookkeepingAvg.avg_discard N). Qed.
+End C10_avg.
+
+(* ---------------------------------------------------------------------- *)
+(* AverageLearner1D: Model/Avg1D.v with the pending-point overlay
+   Model/Avg1DPend.v; points are (seed, x); [tell] keeps the FIRST value of a
+   (seed, x).  Generic in the number structure [N]; the theorems that compare
+   abscissae need == on abscissae to be an equivalence ([EqLaws]; inhabited by
+   the integers: C10_eqlaws_Z; true of doubles except NaN, which the bounds
+   check excludes).  "legal" is C16's quantifier domain of the sample model
+   (abscissae in bounds; a batch is a non-empty dict; ask n >= 1).
+   Not modelled: loss() -- hence C10_avg1d_discard_partial. *)
+Theorem C10_eqlaws_Z : BookkeepingAvg1D.EqLaws BookkeepingAvg.ZOps.
+Proof. exact BookkeepingAvg1D.ZOps_eqlaws. Qed.
+
+Section C10_avg1d.
+  Variable N : AvgNum.NumOps.
+  Variable tppf : nat -> AvgNum.num N.
+  Hypothesis EL : BookkeepingAvg1D.EqLaws N.
+  Notation pst := (Avg1DPend.pst N).
+  Notation pop := (Avg1DPend.pop N).
+  Notation key := (Avg1DPend.key N).
+  Notation pstep := (Avg1DPend.pstep tppf).
+  Notation prun := (Avg1DPend.prun tppf).
+  Notation preach := (Avg1DPend.preach tppf).
+  Notation legalh c h := (Avg1D.legal tppf c (Avg1D.init N) (Avg1DPend.base_ops h) = true).
+  Notation told_keys h := (flat_map (@Avg1DPend.told_keys_op N) (Avg1DPend.flat (Avg1DPend.base_ops h))).
+
+  (* the samples held at x are exactly the samples told at (an abscissa == to)
+     x: each seed once, with the value of its first tell, in order of first tell *)
+  Theorem C10_avg1d_data_exact : forall (c : Avg1D.cfg N) (h : list pop) x, legalh c h ->
+    Avg1DPend.samples_at x (Avg1DPend.base (preach c h)) =
+    Avg1DPend.spec_samples (Avg1DPend.flat (Avg1DPend.base_ops h)) x.
+  Proof. exact (@BookkeepingAvg1D.a1d_data_exact N tppf EL). Qed.
+
+  (* (seed, x) has a value iff it was told; x is in data iff a sample was told there *)
+  Theorem C10_avg1d_told_exact : forall (c : Avg1D.cfg N) (h : list pop), legalh c h ->
+    (forall k : key, Avg1DPend.toldb (Avg1DPend.base (preach c h)) k = existsb (Avg1DPend.keqb k) (told_keys h)) /\
+    (forall x, Avg1D.find_pt x (Avg1DPend.base (preach c h)) <> None <->
+               exists k : key, In k (told_keys h) /\ AvgNum.n_eqb N x (snd k) = true).
+  Proof.
+    exact (fun c h Hl => conj (fun k => @BookkeepingAvg1D.a1d_told_exact N tppf EL c h k Hl)
+                              (fun x => @BookkeepingAvg1D.a1d_abscissae_exact N tppf EL c h x Hl)).
+  Qed.
+
+  (* post-conditions of tell / tell_many_at_point / tell_many, every state: the
+     told (seed, x) are not pending (no laws needed) *)
+  Theorem C10_avg1d_told_not_pending :
+    (forall (c : Avg1D.cfg N) (s : pst) seed x y,
+       Avg1DPend.pmem (seed, x) (Avg1DPend.pend (fst (pstep c s (Avg1DPend.PTell seed x y)))) = false) /\
+    (forall (c : Avg1D.cfg N) (s : pst) x l m seed, Avg1D.in_bounds c x = true -> In seed (map fst l) ->
+       Avg1DPend.pmem (seed, x) (Avg1DPend.pend (fst (pstep c s (Avg1DPend.PTellManyAt x l m)))) = false) /\
+    (forall (c : Avg1D.cfg N) (s : pst) trip hints seed x,
+       forallb (fun e => Avg1D.in_bounds c (snd (fst e))) trip = true -> (exists y, In (seed, x, y) trip) ->
+       Avg1DPend.pmem (seed, x) (Avg1DPend.pend (fst (pstep c s (Avg1DPend.PTellMany trip hints)))) = false).
+  Proof.
+    exact (conj (@BookkeepingAvg1D.a1d_told_not_pending N tppf)
+          (conj (@BookkeepingAvg1D.a1d_told_not_pending_batch N tppf)
+                (@BookkeepingAvg1D.a1d_told_not_pending_many N tppf))).
+  Qed.
+
+  (* data and pending are disjoint along every legal history that marks only
+     (seed, x) without a value as pending AND in which the seeds at every
+     abscissa are consecutive (all below the count there) whenever a committing
+     ask is made.  The last hypothesis excludes exactly the trigger of finding
+     C10:F22; without it the statement is false of the model and of the code
+     (C10_avg1d_commit_hands_out_told_refuted). *)
+  Theorem C10_avg1d_data_pending_disjoint : forall (c : Avg1D.cfg N) (h : list pop),
+    legalh c h -> Avg1DPend.polite tppf c (Avg1DPend.pinit N) h = true ->
+    Avg1DPend.consec_at_asks tppf c (Avg1DPend.pinit N) h = true ->
+    forall k : key, Avg1DPend.pmem k (Avg1DPend.pend (preach c h)) = true ->
+                    Avg1DPend.toldb (Avg1DPend.base (preach c h)) k = false.
+  Proof. exact (@BookkeepingAvg1D.a1d_data_pending_disjoint N tppf EL). Qed.
+
+  (* a (seed, x) returned by a committing ask is pending and stays so along
+     every continuation that neither tells it nor discards (every state) *)
+  Theorem C10_avg1d_asked_is_pending : forall (c : Avg1D.cfg N) (s : pst) n hint (h : list pop) (k : key),
+    In k (Avg1DPend.asked (snd (pstep c s (Avg1DPend.PAsk n true hint)))) ->
+    forallb (BookkeepingAvg1D.keeps k) h = true ->
+    Avg1DPend.pmem k (Avg1DPend.pend (prun c (fst (pstep c s (Avg1DPend.PAsk n true hint))) h)) = true.
+  Proof. exact (@BookkeepingAvg1D.a1d_asked_is_pending N tppf EL). Qed.
+
+  (* nsamples (the sum of _number_samples) = number of distinct told (seed, x) *)
+  Theorem C10_avg1d_nsamples : forall (c : Avg1D.cfg N) (h : list pop), legalh c h ->
+    Avg1D.nsamples (Avg1DPend.base (preach c h)) =
+      length (Avg1DPend.told_set (Avg1DPend.flat (Avg1DPend.base_ops h))) /\
+    (forall k : key, Avg1DPend.pmem k (Avg1DPend.told_set (Avg1DPend.flat (Avg1DPend.base_ops h))) =
+                     existsb (Avg1DPend.keqb k) (told_keys h)).
+  Proof. exact (@BookkeepingAvg1D.a1d_nsamples N tppf EL). Qed.
+
+  (* telling a (seed, x) that has a value (and is not pending) changes nothing, whatever the value *)
+  Theorem C10_avg1d_retell_noop : forall (c : Avg1D.cfg N) (s : pst) seed x y,
+    Avg1DPend.toldb (Avg1DPend.base s) (seed, x) = true -> Avg1DPend.pmem (seed, x) (Avg1DPend.pend s) = false ->
+    fst (pstep c s (Avg1DPend.PTell seed x y)) = s.
+  Proof. exact (@BookkeepingAvg1D.a1d_retell_noop N tppf). Qed.
+
+  (* discard: pending empty, samples untouched (the two losses: not modelled) *)
+  Theorem C10_avg1d_discard_partial : forall (c : Avg1D.cfg N) (s : pst),
+    Avg1DPend.pend (fst (pstep c s Avg1DPend.PRemoveUnfinished)) = [] /\
+    Avg1DPend.base (fst (pstep c s Avg1DPend.PRemoveUnfinished)) = Avg1DPend.base s.
+  Proof. exact (@BookkeepingAvg1D.a1d_discard N tppf). Qed.
+End C10_avg1d.
+
+(* finding C10:F22 on the model (integers): legal, polite history; seeds 0 and
+   2 at x = 5; the committing ask(1) returns (2, 5), which has a value, and
+   marks it pending *)
+Theorem C10_avg1d_commit_hands_out_told_refuted :
+  exists (c : Avg1D.cfg BookkeepingAvg.ZOps) (h : list (Avg1DPend.pop BookkeepingAvg.ZOps))
+         (k : Avg1DPend.key BookkeepingAvg.ZOps),
+    let t : nat -> AvgNum.num BookkeepingAvg.ZOps := fun _ : nat => 1%Z in
+    Avg1D.legal t c (Avg1D.init BookkeepingAvg.ZOps) (Avg1DPend.base_ops h) = true /\
+    Avg1DPend.polite t c (Avg1DPend.pinit BookkeepingAvg.ZOps) h = true /\
+    Avg1DPend.consec_at_asks t c (Avg1DPend.pinit BookkeepingAvg.ZOps) h = false /\
+    Avg1DPend.pmem k (Avg1DPend.pend (Avg1DPend.preach t c h)) = true /\
+    Avg1DPend.toldb (Avg1DPend.base (Avg1DPend.preach t c h)) k = true.
+Proof. exact BookkeepingAvg1D.a1d_commit_hands_out_told_pf. Qed.
+
 (* non-vacuity (Seq): legal history with an unsolicited tell, a re-tell with a
    different value (overwrites), a discard *)
 Example C10_example_seq :
@@ -178,6 +357,54 @@ Example C10_example_l1d :
   L1DBK.first_told Z.eqb h 0%Z = Some (L1D.YS 5%Z).
 Proof. vm_compute. repeat split. Qed.
 
+(* non-vacuity (Avg over the integers): a polite history with a committing
+   ask, an unsolicited out-of-order tell (the next ask takes the fallback
+   branch), a re-tell with another value (ignored), tell_pending, a discard and
+   a non-committing ask *)
+Example C10_example_avg :
+  let N := BookkeepingAvg.ZOps in
+  let c := Avg.mkcfg N 1%Z 1%Z 2 true in
+  let h := [Avg.Ask 2 true []; Avg.Tell N 1 7%Z; Avg.Tell N 4 9%Z; Avg.Tell N 1 8%Z;
+            Avg.TellPending 6; Avg.Ask 2 true [2; 3]; Avg.Ask 3 false []] in
+  BookkeepingAvg.polite c (Avg.init N) h = true /\
+  Avg.data (Avg.reach c h) = [(1, 7%Z); (4, 9%Z)] /\
+  Avg.pend (Avg.reach c h) = [0; 2; 3; 6] /\
+  BookkeepingAvg.told_set h = [1; 4] /\
+  Avg.first_told h 1 = Some 7%Z /\
+  Avg.pend (Avg.remove_unfinished (Avg.reach c h)) = [].
+Proof. vm_compute. repeat split. Qed.
+
+(* the hypothesis of C10_avg_told_not_pending / the politeness proviso is
+   needed: marking a KNOWN seed pending leaves it in both sets (remark, not a
+   finding: only Learner1D.tell_pending guards against it) *)
+Example C10_avg_known_marked_pending_remark :
+  let N := BookkeepingAvg.ZOps in
+  let c := Avg.mkcfg N 1%Z 1%Z 2 true in
+  let h := [Avg.Tell N 0 5%Z; Avg.TellPending 0; Avg.Tell N 0 5%Z] in
+  Avg.pend (Avg.reach c h) = [0] /\ Avg.keys (Avg.reach c h) = [0].
+Proof. vm_compute. repeat split. Qed.
+
+(* non-vacuity (Avg1D over the integers): legal, polite, consecutive seeds at the
+   committing asks; a committing ask on the empty learner, tells of the returned
+   samples, tell_pending of an unsolicited (seed, x), a batch at a new abscissa,
+   a re-tell with another value (ignored), a committing ask to the undersampled
+   abscissa, a non-committing ask *)
+Example C10_example_avg1d :
+  let Z0 := BookkeepingAvg.ZOps in
+  let t : nat -> AvgNum.num Z0 := fun _ => 1%Z in
+  let c := Avg1D.mkcfg Z0 (-10)%Z 10%Z 2 1%Z true in
+  let h := [@Avg1DPend.PAsk Z0 2 true [(0, 3%Z)]; @Avg1DPend.PTell Z0 0 3%Z 7%Z; @Avg1DPend.PTell Z0 1 3%Z 9%Z;
+            @Avg1DPend.PTellPending Z0 (5, 4%Z); @Avg1DPend.PTellManyAt Z0 4%Z [(0, 1%Z); (1, 2%Z)] 2%Z;
+            @Avg1DPend.PTell Z0 0 3%Z 100%Z; @Avg1DPend.PAsk Z0 1 true [(2, 4%Z)];
+            @Avg1DPend.PAsk Z0 2 false [(2, 4%Z)]] in
+  Avg1D.legal t c (Avg1D.init Z0) (Avg1DPend.base_ops h) = true /\
+  Avg1DPend.polite t c (Avg1DPend.pinit Z0) h = true /\
+  Avg1DPend.consec_at_asks t c (Avg1DPend.pinit Z0) h = true /\
+  Avg1DPend.pend (Avg1DPend.preach t c h) = [(5, 4%Z); (2, 4%Z)] /\
+  @Avg1DPend.samples_at Z0 3%Z (Avg1DPend.base (Avg1DPend.preach t c h)) = [(0, 7%Z); (1, 9%Z)] /\
+  Avg1D.nsamples (Avg1DPend.base (Avg1DPend.preach t c h)) = 4.
+Proof. vm_compute. repeat split. Qed.
+
 Print Assumptions C10_seq_data_exact.
 Print Assumptions C10_seq_data_determined.
 Print Assumptions C10_seq_told_not_pending.
@@ -196,3 +423,20 @@ Print Assumptions C10_l1d_asked_is_pending.
 Print Assumptions C10_l1d_npoints.
 Print Assumptions C10_l1d_retell_noop.
 Print Assumptions C10_l1d_discard.
+Print Assumptions C10_avg_data_exact.
+Print Assumptions C10_avg_told_not_pending.
+Print Assumptions C10_avg_data_pending_disjoint.
+Print Assumptions C10_avg_asked_is_pending.
+Print Assumptions C10_avg_npoints.
+Print Assumptions C10_avg_retell_noop.
+Print Assumptions C10_avg_discard.
+Print Assumptions C10_eqlaws_Z.
+Print Assumptions C10_avg1d_data_exact.
+Print Assumptions C10_avg1d_told_exact.
+Print Assumptions C10_avg1d_told_not_pending.
+Print Assumptions C10_avg1d_data_pending_disjoint.
+Print Assumptions C10_avg1d_asked_is_pending.
+Print Assumptions C10_avg1d_nsamples.
+Print Assumptions C10_avg1d_retell_noop.
+Print Assumptions C10_avg1d_discard_partial.
+Print Assumptions C10_avg1d_commit_hands_out_told_refuted.
